@@ -41,13 +41,16 @@ def parseOp (toks : List String) : Option Op :=
   | ["termmac", m] => (parseTagged 'm' m).map .termMac
   | ["termuser", u] => (parseTagged 'u' u).map .termUser
   | ["termall"] => some .termAll
+  | ["authfail", n] => (parseTagged 's' n).map .authFail
   | _ => none
 
 /-! ### monitor: implementation observations only -/
 structure Known where
   name : Nat
+  mac : Nat
   authed : Bool
   hasIp : Bool
+  torn : Bool := false      -- its eBPF entry was seen removed: the session has been torn down
 
 structure Mon where
   radius : Bool := false
@@ -75,7 +78,10 @@ def parseSess (s : String) : List Nat :=
 
 def monitor (mn : Mon) (op : Op) (impl : String) : Mon × List (String × String × String) :=
   let mn := match op with
-    | .mk n _ a i => { mn with objs := { name := n, authed := a, hasIp := i } :: mn.objs }
+    | .mk n m a i => { mn with objs := { name := n, mac := m, authed := a, hasIp := i } :: mn.objs }
+    | .authFail n =>
+      -- a failed re-authentication of a live session; on a torn-down session the flag is never read again
+      { mn with objs := mn.objs.map fun (o : Known) => if o.name == n && !o.torn then { o with authed := false } else o }
     | _ => mn
   let stops := parseCounts (field impl "stops")
   let ebpf := parseCounts (field impl "ebpf")
@@ -96,7 +102,21 @@ def monitor (mn : Mon) (op : Op) (impl : String) : Mon × List (String × String
       (if !(mn.radius && o.authed) && st > 0 then [("stop-unstarted", "none", s!"an Accounting-Stop was issued for s{o.name} which was never authenticated")] else [])
      else
       (if st > 0 then [("stop-before-end", "none", s!"an Accounting-Stop was issued for s{o.name} which is not torn down")] else []))) []
-  (mn, vs)
+  -- a termination request for a session leaves it terminated, whatever state it was in
+  let gone := fun (n : Nat) => !(held.contains n) && !(live.contains n)
+  let vt := match op with
+    | .term n =>
+      if mn.objs.any (·.name == n) && !gone n then
+        [("not-terminated", "none", s!"TerminateSession(s{n}) returned but s{n} still holds its address or table entry")] else []
+    | .padt n m =>
+      if mn.objs.any (fun o => o.name == n && o.mac == m) && !gone n then
+        [("not-terminated", "none", s!"client PADT from the owner did not terminate s{n}")] else []
+    | .termAll =>
+      if !live.isEmpty || !held.isEmpty then
+        [("not-terminated", "none", "TerminateAll left sessions or addresses behind")] else []
+    | _ => []
+  let mn := { mn with objs := mn.objs.map fun (o : Known) => if get ebpf o.name ≥ 1 then { o with torn := true } else o }
+  (mn, vs ++ vt)
 
 structure St where
   model : Option TD := none
